@@ -1,4 +1,4 @@
-import FcpptModel.Model.C05.Machine
+import FcpptModel.Model.C05
 /-!
 # C05 — what "conserves values" means
 
@@ -38,7 +38,7 @@ def NoCopyOfRvalue (o : Outcome) : Prop :=
   ∀ a, o.catOf a = some .rv → ∀ x ∈ o.insOf a, x ∉ o.cp
 
 /-- **each element is moved out of its argument at most once** -/
-def MovedAtMostOnce (o : Outcome) : Prop := ∀ x, o.mv.count x ≤ 1
+def MovedAtMostOnce (o : Outcome) : Prop := ∀ x ∈ o.inputs, o.mv.count x ≤ 1
 
 /-- **never reads an object after moving from it** -/
 def NoReadAfterMove (o : Outcome) : Prop := o.ram = []
@@ -76,5 +76,9 @@ def observe (cats : List Cat) (ins : List (List Nat)) (st : St) : Outcome where
   mv := st.mv
   ram := st.ram
   lost := st.lost
+
+/-- what can be observed of the registered operation `o` called on `inp` -/
+def outcome (o : Op) (inp : Input) : Outcome :=
+  observe (inp.args.map (·.1)) (inp.args.map (·.2)) (exec o inp)
 
 end Fcppt.C05
